@@ -267,6 +267,44 @@ def e2e_skip(ck, n_files):
                              % (a, runs[a]["health_score"], b, runs[b]["health_score"], n_files),
                              {"kind": "e2e-skip", "select": a, "superset": b, "n_files": n_files, "summary_sel": runs[a],
                               "summary_super": runs[b], "file_template": PY_FILE})
+    # ----- the same question through the configuration file: a category switched off in [system_analysis] (or by --skip-*) must cost
+    # nothing: the score of the run with the category off is never below the score of the full run
+    import shutil
+    pd = lib.fresh_dir("c15_e2e_cfg")
+    os.makedirs(os.path.join(pd, "pkg"))
+    open(os.path.join(pd, "requirements.txt"), "w").close()
+    open(os.path.join(pd, "pkg", "__init__.py"), "w").close()
+    for i in range(min(n_files, 14)):
+        with open(os.path.join(pd, "pkg", "mod%d.py" % i), "w") as f:
+            f.write(("from pkg import mod%d\n\n\n" % (i - 1) if i else "") + PY_FILE % {"i": i})
+    variants = {"full": ("", []), "arch_off": ("[system_analysis]\nenable_architecture = false\n", []),
+                "deps_off": ("[system_analysis]\nenable_dependencies = false\n", []),
+                "both_off": ("[system_analysis]\nenable_dependencies = false\nenable_architecture = false\n", []),
+                "skip_deps_flag": ("", ["--skip-deps"]), "select_no_deps": ("", ["--select", "complexity,deadcode,clones,cbo,lcom"])}
+    cres = {}
+    for name, (toml, extra) in variants.items():
+        cfgp = os.path.join(pd, ".pyscn.toml")
+        if toml:
+            with open(cfgp, "w") as f:
+                f.write(toml)
+        elif os.path.exists(cfgp):
+            os.remove(cfgp)
+        rc, data, err = lib.analyze_json(pd, extra)
+        if data is None:
+            ck.notes.append("e2e config variant %s produced no report (rc=%s): %s" % (name, rc, err[-200:]))
+            continue
+        cres[name] = data
+    if os.path.exists(os.path.join(pd, ".pyscn.toml")):
+        os.remove(os.path.join(pd, ".pyscn.toml"))
+    fullr = cres.get("full")
+    for name, data in cres.items():
+        sm, sysr = data["summary"], data.get("system") or {}
+        n += 1
+        if fullr is not None and name != "full" and sm["health_score"] < fullr["summary"]["health_score"]:
+            ck.violation("switching analyses off lowered the health score: variant %s gives %d, the full run gives %d"
+                         % (name, sm["health_score"], fullr["summary"]["health_score"]),
+                         {"kind": "e2e-config", "variant": name, "config": variants[name][0], "flags": variants[name][1], "summary": sm,
+                          "summary_full": fullr["summary"]})
     return n
 
 
